@@ -224,6 +224,39 @@ def advertisement_stage(out, prop, tier, seed):
     out.sample({"advertisement_case": cases[len(cases) // 2]})
 
 
+def filter_poll_stage(out, prop, tier, seed):
+    """C10, last sentence: the clock filter's own desired poll interval stays within the configured limits along the
+    measurement-history shapes of spec/FilterShapes.tla (eight poll configurations with 0 <= min <= initial <= max <= 17),
+    on the real KalmanSourceController with the steering fed back."""
+    shapes = []
+    for cfg in ["quick" if tier == "quick" else "big", "const"]:
+        vf.run_tlc("FilterShapes", "Gen_FilterShapes_%s.cfg" % cfg, workers=8, timeout=1500, tags=("EDGE",),
+                   line_sink=lambda tag, obj: shapes.append(obj), coverage=False)
+    shapes.sort(key=vf.key)
+    if tier == "quick":
+        shapes = [x for k, x in enumerate(shapes) if k % 4 == seed % 4]
+    if not shapes:
+        raise vf.ToolError("FilterShapes enumerated nothing")
+    wd = vf.workdir("FilterShapes_poll")
+    inp, outp = os.path.join(wd, "shapes.ndjson"), os.path.join(wd, "results.ndjson")
+    vf.write_ndjson(inp, shapes)
+    vf.run_harness("ntp_proto", "algorithm::kalman::verif_hook::verif_kalman", {"mode": "filter", "input": inp, "output": outp, "seed": seed}, timeout=1500)
+    results = vf.read_ndjson(outp)
+    if len(results) != len(shapes):
+        raise vf.ToolError("filter harness returned %d results for %d shapes" % (len(results), len(shapes)))
+    moved = 0
+    for sh, r in zip(shapes, results):
+        p = r["poll"]
+        if p["seen_lo"] <= p["seen_hi"] and p["seen_lo"] != p["seen_hi"]:
+            moved += 1
+        if not p["ok"]:
+            out.violation("FilterShapes:desired-poll-outside-limits:min=%d,max=%d" % (p["min"], p["max"]), {"shape": sh, "poll": p})
+    out.add("filter_histories_checked_for_desired_poll", len(results))
+    out.add("filter_histories_where_desired_poll_moved", moved)
+    if moved == 0:
+        raise vf.ToolError("vacuous: the filter never changed its desired poll interval")
+
+
 def reach_lemma(out):
     res = vf.run_tlc("Reach", "Reach.cfg", workers=2, timeout=300, coverage=False)
     if res.violated:
@@ -253,6 +286,8 @@ def run(prop, tier, seed):
         reach_lemma(out)
     if prop == "C33":
         advertisement_stage(out, prop, tier, seed)
+    if prop == "C10":
+        filter_poll_stage(out, prop, tier, seed)
     return out
 
 
